@@ -1344,6 +1344,13 @@ def compile_match_expression(compiler, expr, root, subject, clauses):
     return ret + returnable
 
 
+def _capture_name(compiler, sym):
+    "Check and mangle the name that a match pattern binds."
+    if sym == Symbol("_"):
+        compiler._syntax_error(sym, "can't capture the name `_` in a pattern")
+    return mangle(compiler._nonconst(sym))
+
+
 def compile_pattern(compiler, pattern):
     value, assignment = pattern
     if assignment is not None:
@@ -1351,7 +1358,7 @@ def compile_pattern(compiler, pattern):
             asty.MatchAs(
                 value,
                 pattern=compile_pattern(compiler, (value, None)),
-                name=mangle(compiler._nonconst(assignment)),
+                name=_capture_name(compiler, assignment),
             )
         )
 
@@ -1389,7 +1396,12 @@ def compile_pattern(compiler, pattern):
         ]
         return asty.MatchSequence(value, patterns=patterns)
     elif is_unpack("iterable", value):
-        return compiler.scope.assign(asty.MatchStar(value, name=mangle(value[1])))
+        return compiler.scope.assign(asty.MatchStar(
+            value,
+            # `#* _` is a wildcard, which Python spells as a nameless star.
+            name=None
+                if value[1] == Symbol("_")
+                else _capture_name(compiler, value[1])))
 
     elif isinstance(value, Dict):
         kvs, rest = value
@@ -1400,7 +1412,7 @@ def compile_pattern(compiler, pattern):
                 value,
                 keys=[compiler.compile(key).expr for key in keys],
                 patterns=[compile_pattern(compiler, v) for v in values],
-                rest=mangle(rest) if rest else None,
+                rest=_capture_name(compiler, rest) if rest else None,
             )
         )
     elif isinstance(value, Expression):
